@@ -5,6 +5,7 @@ from __future__ import annotations
 import copy
 import fnmatch
 import json
+import sqlite3
 
 from hypothesis import strategies as st
 
@@ -12,6 +13,7 @@ from .. import dumps, env, gen, observe, xmlw
 from ..canon import diff, fingerprint
 from ..harness import Disc, Sub
 from ..refdb import RefDB
+from .c06 import corrupt, corruptions
 
 PROPERTY = 'C05'
 LEVEL = 'exploration'
@@ -20,7 +22,8 @@ RULE = ('Model-based histories: Hypothesis draws a universe of related lexicons 
         'never-installed one, an unrelated lexicon sharing ids and ILIs), groups them into files '
         '(some holding several lexicons) and draws a sequence of 3-14 operations: add(file), '
         'add(in-memory resource), add(ILI index), remove(specifier: exact, bare id, id:*, *:version, '
-        '*, glob, two-element list) and reopen (drop pooled connections). After every step: the '
+        '*, glob, two-element list), a failing add (one dangling reference) and reopen (drop pooled '
+        'connections); every history has 1-4 removals each followed by further steps. After every step: the '
         'installed set equals the model\'s (documented add/skip/remove semantics); the audit '
         '(foreign_key_check, integrity_check, ownership of every row, dependency links in step '
         'with what is installed) is clean; requires()/extends()/extensions() agree with the '
@@ -53,11 +56,26 @@ def _cases(draw):
         # install everything first (the second add installs the extensions of the all-in-one file)
         ops += [{'op': 'add', 'file': n}, {'op': 'add', 'file': n}, {'op': 'add', 'file': n}]
     def other():
-        kind = draw(st.sampled_from(['add', 'add', 'add', 'add_mem', 'add_ili', 'reopen']))
+        kind = draw(st.sampled_from(['add', 'add', 'add', 'add_mem', 'add_ili', 'reopen',
+                                     'add_bad']))
         if kind in ('add', 'add_mem'):
             return {'op': kind, 'file': draw(st.integers(0, len(files) - 1))}
+        if kind == 'add_bad':
+            return {'op': kind, 'file': draw(st.integers(0, len(files) - 1)),
+                    'pos': draw(st.integers(0, 50)), 'mem': draw(st.booleans())}
         return {'op': kind}
 
+    specs_ = [gen.spec_of(d) for d in docs]
+    if 'x:1' in specs_ and draw(st.integers(0, 2)) == 0:
+        # an extension comes and goes and another lexicon takes its place (row ids are reused):
+        # nothing remembered about the old extension may stick to the newcomer
+        ix = specs_.index('x:1')
+        plain = [i for i, d in enumerate(docs) if i and not d.get('extends')]
+        ops += [{'op': 'add', 'file': 0}, {'op': 'add', 'file': ix},
+                {'op': 'remove', 'spec': 'x:1'}]
+        if plain:
+            ops.append({'op': draw(st.sampled_from(['add', 'add_mem'])),
+                        'file': draw(st.sampled_from(plain))})
     for _ in range(draw(st.integers(0, 3))):
         ops.append(other())
     # segments: a removal followed by further steps, so that what a removal leaves
@@ -92,6 +110,8 @@ def _classify(case):
     removed_structural_at = None
     for i, op in enumerate(case['ops']):
         tags.add('op:' + op['op'])
+        if op['op'] == 'add_bad':
+            continue
         if op['op'] in ('add', 'add_mem'):
             res = {'lmf_version': case['universe']['lmf_version'],
                    'lexicons': [docs[j] for j in case['files'][op['file']]]}
@@ -162,8 +182,12 @@ def _unwrap(o):
 def _state(db):
     log = dumps.logical_dump(db.file)
     log.pop('__counts__', None)
+    default = observe.observe_selection(None, expand=None)
+    default.pop('warnings', None)
+    default.pop('ilis', None)     # unfiltered listing of the shared ILI inventory
     return {'logical': {t: {'__multiset__': rows} for t, rows in log.items()},
-            'api': _mask(observe.observe_all_lexicons(deep=True, expand=''))}
+            'api': _mask(observe.observe_all_lexicons(deep=True, expand='')),
+            'api_default': _mask(default)}
 
 
 def oracle(case):
@@ -192,6 +216,27 @@ def oracle(case):
             p, res = paths[op['file']]
             wn.add_lexical_resource(copy.deepcopy(res), progress_handler=None)
             ref.add_resource(res)
+        elif op['op'] == 'add_bad':
+            # an add that is made to fail by one dangling reference: nothing may change, and
+            # nothing may be left behind that disturbs the following steps
+            p, res = paths[op['file']]
+            cands = [c for c in corruptions(res) if c[0] in ('sense-synset',
+                                                              'synset-relation-target',
+                                                              'sense-relation-target')]
+            if cands:
+                kind, pos = cands[op['pos'] % len(cands)]
+                bad = corrupt(res, kind, pos)
+                try:
+                    if op.get('mem'):
+                        wn.add_lexical_resource(bad, progress_handler=None)
+                    else:
+                        wn.add(xmlw.write(bad, work / f'bad{step}.xml', None),
+                               progress_handler=None)
+                except (wn.Error, sqlite3.Error):
+                    pass
+                else:
+                    # not rejected: the corrupted lexicon must have been one that is skipped
+                    ref.add_resource(res)
         elif op['op'] == 'add_ili':
             wn.add(ili, progress_handler=None)
         elif op['op'] == 'reopen':
@@ -245,6 +290,8 @@ def oracle(case):
             out.append(Disc('fresh-differential:tables', f'{label}{p}', e, g))
         for p, e, g in diff(exp['api'], _unwrap(got['api']), limit=6):
             out.append(Disc('fresh-differential:api', f'{label}{p}', e, g))
+        for p, e, g in diff(exp['api_default'], _unwrap(got['api_default']), limit=6):
+            out.append(Disc('fresh-differential:api', f'{label}/default-mode{p}', e, g))
         if out:
             return out
     return out
@@ -261,5 +308,5 @@ SUBS = [
         budget={'quick': 80, 'thorough': 400}, sample=_sample,
         fingerprint=lambda c: fingerprint([c['universe'], c['files'], c['ops']]),
         require_tags=('removed-lexicon-with-extension', 'star-removal', 're-add', 'op:reopen',
-                      'op:add_ili', 'op:add_mem')),
+                      'op:add_ili', 'op:add_mem', 'op:add_bad')),
 ]
